@@ -34,6 +34,10 @@ pub enum Step {
     Mint { to: usize },
     Transfer { from: usize, to: usize, id: u32 },
     Burn { from: usize, id: u32 },
+    /// operator approval (for all tokens of `owner`), valid up to the host maximum
+    ApproveAll { owner: usize, operator: usize },
+    TransferFrom { spender: usize, from: usize, to: usize, id: u32 },
+    BurnFrom { spender: usize, from: usize, id: u32 },
     Delegate { who: usize, to: usize },
     Advance { n: u32 },
 }
@@ -41,7 +45,7 @@ pub enum Step {
 pub struct Cfg { pub actors: usize, pub start_ledger: u32 }
 
 #[derive(Clone, Debug, Default)]
-struct Model { owner: BTreeMap<u32, usize>, next: u32, del: BTreeMap<usize, usize>, now: u32, tl: BTreeMap<usize, BTreeMap<u32, u128>>, stl: BTreeMap<u32, u128> }
+struct Model { ops: std::collections::BTreeSet<(usize, usize)>, owner: BTreeMap<u32, usize>, next: u32, del: BTreeMap<usize, usize>, now: u32, tl: BTreeMap<usize, BTreeMap<u32, u128>>, stl: BTreeMap<u32, u128> }
 impl Model {
     fn units(&self, a: usize) -> u128 { self.owner.values().filter(|o| **o == a).count() as u128 }
     fn votes(&self, a: usize) -> u128 { self.del.iter().filter(|(_, d)| **d == a).map(|(w, _)| self.units(*w)).sum() }
@@ -53,6 +57,9 @@ impl Model {
             Step::Mint { to } => { self.owner.insert(self.next, to); self.next += 1; true }
             Step::Transfer { from, to, id } => { if self.owner.get(&id) != Some(&from) { return false; } self.owner.insert(id, to); true }
             Step::Burn { from, id } => { if self.owner.get(&id) != Some(&from) { return false; } self.owner.remove(&id); true }
+            Step::ApproveAll { owner, operator } => { self.ops.insert((owner, operator)); true }
+            Step::TransferFrom { spender, from, to, id } => { if self.owner.get(&id) != Some(&from) || !(spender == from || self.ops.contains(&(from, spender))) { return false; } self.owner.insert(id, to); true }
+            Step::BurnFrom { spender, from, id } => { if self.owner.get(&id) != Some(&from) || !(spender == from || self.ops.contains(&(from, spender))) { return false; } self.owner.remove(&id); true }
             Step::Delegate { who, to } => { if self.del.get(&who) == Some(&to) { return false; } self.del.insert(who, to); true }
         }
     }
@@ -73,6 +80,10 @@ impl Check for NftVotes {
     fn clock_step(&self, n: u32) -> Option<Step> {
         Some(Step::Advance { n })
     }
+    fn clock_budget(&self) -> u64 {
+        // operator approvals are given up to the host maximum (about 6.3 M ledgers) and not modelled as expiring
+        6_000_000
+    }
     fn generate(&self, rng: &mut Rng, tier: Tier) -> (Cfg, std::vec::Vec<Step>) {
         let cfg = Cfg { actors: 3 + rng.below(2) as usize, start_ledger: 1 + rng.below(50_000) as u32 };
         let n = cfg.actors as u64;
@@ -85,7 +96,14 @@ impl Check for NftVotes {
                 0..=24 => Step::Mint { to: rng.below(n) as usize },
                 25..=49 => { let id = if ids.is_empty() || rng.chance(10) { rng.below(m.next as u64 + 2) as u32 } else { *rng.pick(&ids) }; let from = *m.owner.get(&id).unwrap_or(&0); Step::Transfer { from: if rng.chance(92) { from } else { rng.below(n) as usize }, to: if rng.chance(10) { from } else { rng.below(n) as usize }, id } }
                 50..=59 => { let id = if ids.is_empty() || rng.chance(10) { rng.below(m.next as u64 + 2) as u32 } else { *rng.pick(&ids) }; Step::Burn { from: *m.owner.get(&id).unwrap_or(&0), id } }
-                60..=79 => { let who = rng.below(n) as usize; Step::Delegate { who, to: if rng.chance(20) { who } else { rng.below(n) as usize } } }
+                60..=64 => Step::ApproveAll { owner: rng.below(n) as usize, operator: rng.below(n) as usize },
+                65..=71 => {
+                    let id = if ids.is_empty() || rng.chance(10) { rng.below(m.next as u64 + 2) as u32 } else { *rng.pick(&ids) };
+                    let from = *m.owner.get(&id).unwrap_or(&0);
+                    let spender = m.ops.iter().find(|k| k.0 == from).map(|k| k.1).filter(|_| !rng.chance(20)).unwrap_or_else(|| rng.below(n) as usize);
+                    if rng.chance(50) { Step::TransferFrom { spender, from, to: rng.below(n) as usize, id } } else { Step::BurnFrom { spender, from, id } }
+                }
+                72..=83 => { let who = rng.below(n) as usize; Step::Delegate { who, to: if rng.chance(20) { who } else { rng.below(n) as usize } } }
                 _ => Step::Advance { n: if rng.chance(45) { rng.below(2) as u32 } else { 1 + rng.below(6) as u32 } },
             };
             m.apply(&s);
@@ -113,6 +131,9 @@ impl Check for NftVotes {
                 Step::Mint { to } => { w.set_auth(&[]); ("mint", c.try_mint(&a(*to)).is_ok()) }
                 Step::Transfer { from, to, id: t } => { w.set_auth(&[(*from, Inv::new(&id, "transfer", (a(*from), a(*to), *t).into_val(e)))]); ("transfer", c.try_transfer(&a(*from), &a(*to), t).is_ok()) }
                 Step::Burn { from, id: t } => { w.set_auth(&[(*from, Inv::new(&id, "burn", (a(*from), *t).into_val(e)))]); ("burn", c.try_burn(&a(*from), t).is_ok()) }
+                Step::ApproveAll { owner, operator } => { let live = e.ledger().max_live_until_ledger(); w.set_auth(&[(*owner, Inv::new(&id, "approve_for_all", (a(*owner), a(*operator), live).into_val(e)))]); ("approve_for_all", c.try_approve_for_all(&a(*owner), &a(*operator), &live).is_ok()) }
+                Step::TransferFrom { spender, from, to, id: t } => { w.set_auth(&[(*spender, Inv::new(&id, "transfer_from", (a(*spender), a(*from), a(*to), *t).into_val(e)))]); ("transfer_from", c.try_transfer_from(&a(*spender), &a(*from), &a(*to), t).is_ok()) }
+                Step::BurnFrom { spender, from, id: t } => { w.set_auth(&[(*spender, Inv::new(&id, "burn_from", (a(*spender), a(*from), *t).into_val(e)))]); ("burn_from", c.try_burn_from(&a(*spender), &a(*from), t).is_ok()) }
                 Step::Delegate { who, to } => { w.set_auth(&[(*who, Inv::new(&id, "delegate", (a(*who), a(*to)).into_val(e)))]); ("delegate", c.try_delegate(&a(*who), &a(*to)).is_ok()) }
             };
             let exp = m.apply(s);
